@@ -55,6 +55,19 @@ def enumerable_types():
     return [t for t in _TT if t not in skip and "select" not in t and t != "rank"]
 
 
+HYPHEN_DATA_TYPES = {"date", "dateTime", "geopoint", "geotrace", "geoshape"}
+
+
+def data_type(tname: str) -> str:
+    """the name under which the hyphen rule of default_is_dynamic is meant ("data types which are likely to have
+    non-dynamic defaults containing a hyphen"): the bind type of the type-table entry when it is one of those
+    data types, else the type name itself"""
+    from pyxform.question_type_dictionary import QUESTION_TYPE_DICT
+
+    bt = (QUESTION_TYPE_DICT.get(tname, {}).get("bind") or {}).get("type")
+    return bt if bt in HYPHEN_DATA_TYPES else tname
+
+
 def image_default(tname, d):
     """harness copy of xls2json.process_image_default (photo rows only)"""
     if tname == "photo" and d and "jr://images/" not in d:
